@@ -157,7 +157,8 @@ PROPS["C11"] = dict(
           "call that would return Done; one-shot and sticky) or the writer fails at its p-th WriteNext (every p; one-shot and sticky), plus up to 6 generated double faults; oracle: fault fired => a non-nil error (or a panic), no fault "
           "fired => nil. System leg (1 of 6): a generated simpledb program runs in a child process in which EITHER the data or index writer of the f-th flush / c-th compaction fails at record position p or at its Close, i.e. the final flush (verif-tag writer-open hook, failure "
           "model of the repository's failingRecordIoWriter) OR a system call fails with EIO/ENOSPC (strace -e inject): the k-th write (k in 1..6) to data.rio / index.rio / bloom.bf.gz / meta.pb.bin of the n-th flushed table or to the n-th log file, or the k-th write (4..120) of whichever thread reaches it; "
-          "likewise the k-th read/pread64 of one of those files (compaction inputs, recovery, scans) and the k-th fsync (of a log file, or of any thread); "
+          "likewise the k-th read/pread64 of one of those files (compaction inputs, recovery, scans), the k-th fsync (of a log file, or of any thread), and the k-th directory-level call "
+          "(mkdirat / renameat / unlinkat / ftruncate / fallocate / linkat, with EIO, ENOSPC or EACCES) of a thread; the injected call families are write,pwrite64,writev,pwritev,pwritev2 / read,pread64,readv,preadv,preadv2 / fsync,fdatasync,sync_file_range; "
           "the child may stop or continue; if a writer fault fired, an operation must have returned an error or the child must have stopped; afterwards the parent opens the directory without faults and its content must equal the map of the acknowledged operations "
           "(operations in flight or answered with an error may or may not have taken effect). non-trivial = the fault fired before the last output record was written (interface) / the fault fired, or with a syscall fault the child stopped or an operation returned an error (system); distinct = (case hash, fault position)"),
     level_text="Every single fault position of every generated merge is enumerated with an exact oracle; the system leg samples fault positions inside real flushes and compactions.",
